@@ -15,4 +15,33 @@ var Coarse bool
 
 var Registry = map[string]Prop{}
 
-func register(id string, p Prop) { Registry[id] = p }
+func register(id string, p Prop) {
+	if x, ok := extraExplain[id]; ok {
+		p.Explanation += "; " + x
+	}
+	Registry[id] = p
+}
+
+// extraExplain: the rules added after the seeded-change review (generated from tools/newrules.json).
+var extraExplain = map[string]string{
+	"C01": "R1.1 value-without-type: every operand slot taken from the stack (Pop/Get/GetArgs element, Call(args) of builtin instructions) whose Val goes into emitted syntax has its Type read, or is handed to a function whose summary inspects that parameter, on every acyclic path through the emission (helpers export the obligation through per-parameter summaries; slices handed over whole need an exact-arity test); R1.2 the verdict of every checker call is consumed (not a statement, not assigned to blank, read afterwards); R1.3 every path that jumps to the conversion node passes the true edge of len(args)==1 and ConvertibleTo (fall-through paths: known findings); R1.5 loops that apply a checker to the elements of an operand list reach the check on every iteration that continues; R1.6 re-use of an already declared object by := checks the new value against the existing type on every normal path; R1.7 restoreArgs restores unconditionally.",
+	"C02": "R2.3 the index and range container tables accept the same pointer-to-array operands; R2.4 ComparableTo asks assignability in both directions, each with the operand of its source side, and the untyped arms pair each untyped operand with its own basic type; R2.5 a conversion to a receive-only channel or pointer type is parenthesised.",
+	"C03": "R3.3 a branch that rewrites an expression into pointer form also builds the pointer type it reports; R3.4 ConstDefs.NewAt overwrites both remembered repetition fields (callback, type) from its parameters on every normal path; R3.5 the receiver parameter of a method-expression signature is data-dependent on the type the expression was written on, on every path of methodSigOf.",
+	"C04": "R4.6 the basic-kind classifiers isUnsigned / isNumeric, evaluated for all basic kinds by constant arithmetic on their Kind()/Info() expression, agree with go/types' flags; R4.7 a field overridden for the duration of a call and restored by a deferred function is restored with a value read before the override (iota context).",
+	"C05": "R5.4 mutual assignability in ComparableTo in both directions with the right operand each, untyped arms pair operand/type correctly (symmetry).",
+	"C06": "R6.2 also: restoreArgs restores every saved field unconditionally (a guard is tolerated only if it is a disjunction of inequality tests naming every restored field); R6.5 the check loops of the functions that receive a candidate's argument list (matchFuncArgs, matchVariadicArgs) cover every element.",
+	"C07": "R7.4 the result and error returned by infer are produced by the current call (no field of memory reachable from a parameter; the checker's error callback stores into no such field); R7.5 every acceptance site of an operand type (matchFuncCall, matchType, DefaultConv, AssignableConv, checkAssignType for the blank identifier) recognises the deferred-inference placeholder type and forces the inference.",
+	"C08": "R8.3 on every path of findMember no depth-0 lookup (normalField, method) follows a promoted lookup (embeddedField, field); R8.4 = R3.5 (method-expression receiver is the written type).",
+	"C09": "R9.3 is path-based: on every normal path of importName (loops taken up to twice) the returned candidate was tested false against declared names and the file's import names after its last assignment, and is registered; R9.4 markUsed walks the file's whole declaration list and reaches ast.Walk for every element; R9.5 package-qualified references use the file's shared import identifier node itself (never a copy); R9.6 newImport marks the file dirty on every path (defect found, repaired in /repo).",
+	"C10": "R10.3 tolerates a labels!=nil guard around checkLabels; R10.5 a function body starts with empty label and panic-call tables (labels are function-scoped).",
+	"C11": "R11.2 the loop that zero-fills omitted arguments is covered by an isParamOptional test over the same index range; R11.3 every normal path of RangeAssignThen takes over the statements emitted while the range header was built (hoisted any-member assertions).",
+	"C12": "R12.3 also evaluates the condition under which a channel conversion is parenthesised (must hold for receive-only); R12.4 the statement-comment lookup, keyed by the statement being printed, sits in the printer function that dispatches over every statement kind, before the switch; R12.5 the single-type-parameter comma decision recognises pointer, binary (recursing left) and parenthesised constraints.",
+	"C13": "R13.5 = R9.5 (type references use the shared import identifier node).",
+	"C14": "R14.4 the Named and Alias arms of Zero unwrap the requested type itself (no Origin()).",
+	"C15": "R15.1 a sort that follows a map walk restores determinism only if it is total on what is emitted: sort.Slice keys must be the emitted projection or derive from the map's range key.",
+	"C16": "R16.3 is type-resolved (any assignment form) and path-based for the restore: every funcBodyCtx field is saved before it is overwritten in startFuncBody and restored on every normal path of endFuncBody; startFuncBody starts labels/panicCalls empty and installs the new function; R16.4 the stack primitives Push/Pop/PopN/Ret/SetLen are branch-free and their new length, computed symbolically from their single store, is L+1, L-1, L-n, L-arity+len(results), base.",
+	"C17": "R17.4 visited sets (parameters of type map[K]struct{}) of the recursive member search only grow (no delete/clear/replacement).",
+	"C18": "E5 now lets every library-allocated object of a type declared in the analysed packages come back as the receiver or a pointer argument of any API root (hand-back), and treats append to a slice literal's array as in-place once any slice expression cuts that array short; R18.4 a pooled object (and storage taken from it) is not used after it was put back into its sync.Pool on any path.",
+	"C19": "R19.4 in the generic-signature arm of the hasher the by-index mode flag is set before any component is hashed; R19.5 the bucket scans of Set/At/Delete leave early only by returning on an Identical match.",
+	"C20": "R20.6 every iteration of Prepare over the listing stores a record (no skip before Store); R20.7 the dependency slice of every record built by Prepare and loadCachePkgs is allocated in the iteration that builds it.",
+}
